@@ -94,6 +94,7 @@ private:
 
     for (; begin != it; ++begin)
       prev = begin;
+    it = prev;
   }
 
   template <class Iter>
